@@ -294,6 +294,13 @@ func (self *LockManagerQueue) Restructuring() error {
 		}
 	}
 
+	if tailNodeIndex > self.tailNodeIndex+1 {
+		for self.nodeIndex > tailNodeIndex {
+			self.queues[self.nodeIndex] = nil
+			self.nodeQueueSizes[self.nodeIndex] = 0
+			self.nodeIndex--
+		}
+	}
 	for tailNodeIndex > self.tailNodeIndex+1 {
 		self.queues[tailNodeIndex] = nil
 		self.nodeQueueSizes[tailNodeIndex] = 0
@@ -625,6 +632,13 @@ func (self *LockQueue) Restructuring() error {
 		}
 	}
 
+	if tailNodeIndex > self.tailNodeIndex+1 {
+		for self.nodeIndex > tailNodeIndex {
+			self.queues[self.nodeIndex] = nil
+			self.nodeQueueSizes[self.nodeIndex] = 0
+			self.nodeIndex--
+		}
+	}
 	for tailNodeIndex > self.tailNodeIndex+1 {
 		self.queues[tailNodeIndex] = nil
 		self.nodeQueueSizes[tailNodeIndex] = 0
@@ -954,6 +968,13 @@ func (self *LockCommandQueue) Restructuring() error {
 		}
 	}
 
+	if tailNodeIndex > self.tailNodeIndex+1 {
+		for self.nodeIndex > tailNodeIndex {
+			self.queues[self.nodeIndex] = nil
+			self.nodeQueueSizes[self.nodeIndex] = 0
+			self.nodeIndex--
+		}
+	}
 	for tailNodeIndex > self.tailNodeIndex+1 {
 		self.queues[tailNodeIndex] = nil
 		self.nodeQueueSizes[tailNodeIndex] = 0
